@@ -294,10 +294,21 @@ func (v *queue_[V]) AddValue(value V) {
 }
 
 func (v *queue_[V]) RemoveAll() {
-	v.mutex_.Lock()
-	v.available_ = make(chan bool, v.capacity_)
-	v.values_ = List[V](v.GetClass().Notation()).Make()
-	v.mutex_.Unlock()
+	// Discard the values one at a time.  The channel must not be replaced since
+	// producers and consumers may be blocked on it (or about to use it).
+	for {
+		select {
+		case _, ok := <-v.available_:
+			if !ok {
+				return // The queue has been closed and is now empty.
+			}
+			v.mutex_.Lock()
+			v.values_.RemoveValue(1)
+			v.mutex_.Unlock()
+		default:
+			return // The queue is now empty.
+		}
+	}
 }
 
 // Sequential
